@@ -61,10 +61,13 @@ class EliminateVariable:
                     # x and |x| are one symbol, whether it is declared or
                     # not: SimplifyQuotedSymbols would take the step back
                     continue
-                if is_var(c):
+                if c.is_leaf() and (is_var(c) or is_var(
+                        Node(get_symbol_name(c.data))) or is_var(
+                            Node('|' + get_symbol_name(c.data) + '|'))):
                     # Avoid cycles with core.ReplaceByVariable, which
                     # replaces a variable by a larger (smaller) one, and
-                    # with SimplifyQuotedSymbols (x and |x| are one symbol)
+                    # with SimplifyQuotedSymbols (x and |x| are one symbol,
+                    # in whichever of the two spellings it was declared)
                     cname = get_symbol_name(c.data)
                     tname = get_symbol_name(t.data)
                     if cname == tname or (cname > tname) != (
